@@ -303,8 +303,8 @@ fn check_indicator(d: &reg::IDesc, cfg: &dyn reg::DC, cs: &[Candle], seed: u64, 
 
 pub fn run(ctx: &Ctx, r: &mut Report) {
 	let ms = reg::methods();
-	let nlen = ctx.pick(10, 40);
-	let nch = ctx.pick(6, 40);
+	let nlen = ctx.pick(24, 40);
+	let nch = ctx.pick(12, 40);
 	let mut k = 0u64;
 	for m in &ms {
 		for len in lengths(m, nlen, ctx.seed) {
@@ -319,7 +319,7 @@ pub fn run(ctx: &Ctx, r: &mut Report) {
 	}
 	check_buffered(ctx, r);
 	for d in reg::indicators() {
-		let cfgs = indicator_configs(&d, ctx.pick(6, 40), ctx.seed);
+		let cfgs = indicator_configs(&d, ctx.pick(16, 40), ctx.seed);
 		for (ci, cfg) in cfgs.iter().enumerate() {
 			k += 1;
 			if !ctx.mine(k) {
